@@ -5,6 +5,6 @@ public class Ovs implements tlc2.overrides.ITLCOverrides {
   @SuppressWarnings("rawtypes")
   @Override
   public Class[] get() {
-    return new Class[] {BigNat.class, Hex.class, Emit.class};
+    return new Class[] {BigNat.class, Hex.class, Emit.class, GF2.class};
   }
 }
